@@ -53,13 +53,19 @@ def site(acc):
     for fn, fl in acc["frames"]:
         if fn.startswith("runtime.") or fl.startswith("/usr/lib/go") or "/go/src/" in fl:
             continue
+        if not fl.startswith("/") and "." not in fl.split("/")[0]:
+            continue  # standard library frame in a -trimpath build (sync/map.go, ...)
         return fn, fl
     return None
 
 
 def in_repo(st):
     repo = os.environ.get("VERIF_REPO", "/repo").rstrip("/") + "/"
-    return bool(st) and st[1].startswith(repo) and not st[1].startswith(repo + "zzverif/")
+    if not st:
+        return False
+    if st[1].startswith("github.com/osmosis-labs/osmosis/"):  # -trimpath build (scratch copies of the repository)
+        return "/zzverif/" not in st[1]
+    return st[1].startswith(repo) and not st[1].startswith(repo + "zzverif/")
 
 
 def classify(block):
